@@ -1,12 +1,17 @@
 package main
 
 // C11 — the loader reads nothing beyond the root unless external refs are allowed.
-// Real code exercised: openapi3.Loader.LoadFromFile / LoadFromURI / LoadFromDataWithPath / LoadFromData with a
-// recording ReadFromURIFunc that serves an in-memory file universe described by the case.
+// Real code exercised: openapi3.Loader.LoadFromFile / LoadFromURI / LoadFromDataWithPath / LoadFromData /
+// LoadFromIoReader with a recording ReadFromURIFunc that serves an in-memory file universe described by the case;
+// every case is loaded a second time with the recording reader behind openapi3.URIMapCache.
 //
 // A case carries a generator-level description "g" (files = trees of OpenAPI elements with $ref texts) from
 // which BOTH the concrete JSON documents (for the library) and the abstract view sent to the Lean driver
-// (node tables in resolver order, typed/raw fragment tables, parsed reference texts) are derived by c11Derive.
+// (node tables in resolver order — one view of an element file per kind of reference it can be read through —,
+// typed/raw fragment tables, parsed reference texts) are derived by c11Derive.
+//
+// The positions and their order (c11ChildKind, c11OrderKey, c11MediaTypeKey) follow the table WalkSites regenerated
+// from openapi3/loader.go (lean/KinModel/Gen/WalkSites.lean; expectation: expectedWalk in lean/KinModel/Reads.lean).
 
 import (
 	"bytes"
